@@ -21,7 +21,7 @@ import (
 
 // ExecLimit is how long one execution may run before the worker gives up on it (executions on
 // the unchanged tree take micro- to milliseconds; the longest single ones a few seconds).
-var ExecLimit = 120 * time.Second
+var ExecLimit = 180 * time.Second
 
 const progSize = 8192
 
@@ -123,6 +123,10 @@ func progressStartBFS(tr Trace, op int) {
 	b = append(b, '\n', 0)
 	prog.start.Store(time.Now().UnixNano())
 }
+
+// LongExecution tells the watchdog that the rest of this execution is legitimately long (it waits for a
+// separate process, such as the free-running race pass): the per-execution limit does not apply to it.
+func (c *Ctx) LongExecution() { progressEnd() }
 
 func progressEnd() {
 	if prog.mem == nil {
